@@ -432,8 +432,8 @@ for _p, _d in (('C02', 'C02'), ('C03', 'C03'), ('C10', 'C10')):
 
 for _p in ('C01', 'C04', 'C05', 'C20'):
     PROPS[_p].update({
-        'technique': 'deterministic simulation with fault injection: seeded pipelines of real pipes between a mock source and mock sinks over a simulated event loop and allocator; reference model of the output helper and per-pipe transforms; lifecycle, negotiation, conservation and leak oracles; minimised replay files',
-        'level_note': 'sampling, not enumeration; single simulated thread; catalogue of 12 pipe types; trusted base = sim/*, the model in harness/epipe.c',
+        'technique': 'deterministic simulation with fault injection: seeded pipelines of real pipes between a mock source and mock sinks over a simulated event loop, clock and allocator; reference model of the output helper and per-pipe transforms (12 pipe types), model-free oracles over 55 more pipe types and 14 sub-pipe families (lifecycle, leak, order, completeness after a drain, twin execution without getters and rejected setters, stale flow definition); allocation failures, refusing and blocking sinks, release at any point; minimised replay files',
+        'level_note': 'sampling, not enumeration; one simulated thread except the worker-pipe engine that also serves C01; reference models for 12 pipe types, model-free oracles elsewhere; trusted base = sim/*, harness/epipe.c, harness/esweep.c, harness/efam.c',
         'design_ref': 'DESIGN.md section 5, E-pipe / ' + _p})
 
 PROPS['C12'].update({
